@@ -929,6 +929,11 @@ Proof.
     rewrite Hfc. reflexivity.
 Qed.
 
+Theorem join_comps (elems : list str) (x : str) (l : list str) :
+  filter ne elems = x :: l ->
+  join Linux elems = render (is_abs_spec x) (norm (is_abs_spec x) [] (fc elems)).
+Proof. intros H. rewrite join_spec_correct. exact (join_spec_comps elems H). Qed.
+
 Lemma is_abs_spec_eq p : is_abs Linux p = is_abs_spec p.
 Proof. reflexivity. Qed.
 
